@@ -4,8 +4,8 @@
   Embedding: a Python `str` is a Lean `String`; the model's `Str` is its list of code points (`PyS.codes`).
   Proved here: `_endswith`, `_iendswith` equal the model's `endsWith` / `iendsWith`; the suffix-search loop of
   `splitext_addext` (for … break … else, through the function-valued local `endswith`) finds the model's `find?` and cuts
-  like `cutEnd`; `rfind`/`strip` facts for the tail.  NOT yet proved: the tail of `splitext_addext` assembled into one
-  equality, `parse_filename`, `types_filenames` (tied by the `gen` correspondence stream only).  Core Lean only.
+  like `cutEnd`; the tail (`rfind`, `strip`, slices) and the whole `splitext_addext` = `splitextAddext`
+  (`gen_splitext_addext_eq`).  Core Lean only.
 -/
 import NibabelModel.Model.C12
 import NibabelModel.Generated.C12Funcs
@@ -170,5 +170,110 @@ theorem codes_sliceTo_nat (f : String) (i : Nat) (h : i < (codes f).length) :
   have hb : bound f.toList.length (i : Int) = i := by
     unfold bound; rw [if_neg (by omega)]; simp; omega
   simp [PyS.sliceTo, PyS.sliceFrom, hb, codes, List.map_take, List.map_drop]
+
+/-! ### `splitext_addext`: tail and full equality -/
+
+theorem codes_empty : codes "" = [] := by simp [codes]
+
+/-- the part of `splitext_addext` after the loop, on values -/
+theorem sae_tail (f : String) :
+    ∃ a b, (if (decide (PyS.rfind f 46 < 0) || (PyS.strip f 46 == "")) then (f, "")
+            else (PyS.sliceTo f (PyS.rfind f 46), PyS.sliceFrom f (PyS.rfind f 46))) = (a, b) ∧
+      (match splitLast 46 (codes f) with
+        | Option.none => (codes f, [])
+        | Option.some (x, y) => if (codes f).all (· = 46) then (codes f, []) else (x, y)) = (codes a, codes b) := by
+  rw [splitLast_rfindL, strip_empty]
+  unfold PyS.rfind
+  cases hr : rfindL 46 (codes f) with
+  | none => exact ⟨f, "", by simp, by simp [codes_empty]⟩
+  | some i =>
+    have hi := rfindL_lt 46 (codes f) i hr
+    obtain ⟨h1, h2⟩ := codes_sliceTo_nat f i hi
+    by_cases ha : (codes f).all (· = 46) = true
+    · exact ⟨f, "", by simp [ha], by simp only [Option.map_some]; rw [if_pos ha, codes_empty]⟩
+    · have ha' : (codes f).all (· = 46) = false := by simpa using ha
+      refine ⟨PyS.sliceTo f (i : Int), PyS.sliceFrom f (i : Int), ?_, ?_⟩
+      · have : ¬ ((i : Int) < 0) := by omega
+        simp [ha', this]
+      · simp only [Option.map_some]; rw [if_neg ha, h1, h2]
+
+
+/-- the second half of the model's `splitextAddext` -/
+def saeSplit (l : Str) : Str × Str :=
+  match splitLast DOT l with
+  | Option.none => (l, [])
+  | Option.some (x, y) => if l.all (· = DOT) then (l, []) else (x, y)
+
+def saeAssemble (r : Str × Str) : Str × Str × Str :=
+  match splitLast DOT r.1 with
+  | Option.none => (r.1, [], r.2)
+  | Option.some (a, b) => if r.1.all (· = DOT) then (r.1, [], r.2) else (a, b, r.2)
+
+theorem saeAssemble_eq (r : Str × Str) : saeAssemble r = ((saeSplit r.1).1, (saeSplit r.1).2, r.2) := by
+  unfold saeAssemble saeSplit
+  cases h : splitLast DOT r.1 with
+  | none => rfl
+  | some p =>
+    obtain ⟨x, y⟩ := p
+    by_cases ha : (r.1.all (· = DOT)) = true
+    · simp only [if_pos ha]
+    · simp only [if_neg ha]
+
+theorem splitextAddext_split (fn : Str) (A : List Str) (mc : Bool) :
+    splitextAddext fn A mc =
+      (let r : Str × Str := match A.find? (endsFn mc fn) with
+        | Option.some e => cutEnd fn e.length
+        | Option.none => (fn, [])
+       ((saeSplit r.1).1, (saeSplit r.1).2, r.2)) := by
+  rw [← saeAssemble_eq]; rfl
+
+theorem sae_tail_V (f ad : String) : ∃ a b,
+    (do
+      let c ← (if PyS.rfind f 46 < 0 then (Except.ok true : M Bool) else Except.ok (PyS.strip f 46 == ""))
+      if c = true then (Except.ok ((str f).tup3 (str "") (str ad)) : M V)
+      else Except.ok ((str (PyS.sliceTo f (PyS.rfind f 46))).tup3 (str (PyS.sliceFrom f (PyS.rfind f 46))) (str ad))) =
+      Except.ok ((str a).tup3 (str b) (str ad)) ∧ saeSplit (codes f) = (codes a, codes b) := by
+  obtain ⟨a, b, h1, h2⟩ := sae_tail f
+  refine ⟨a, b, ?_, h2⟩
+  by_cases hr : PyS.rfind f 46 < 0
+  · simp [hr] at h1 ⊢; simp [h1.1, h1.2]
+  · by_cases hst : (PyS.strip f 46 == "") = true
+    · simp [hr, hst] at h1 ⊢; simp [h1.1, h1.2]
+    · simp [hr, hst] at h1 ⊢; simp [h1.1, h1.2]
+
+theorem tag_true : tag true = .str "fn:_endswith" := rfl
+theorem tag_false : tag false = .str "fn:_iendswith" := rfl
+
+theorem find_codes (p : Str → Bool) (A : List String) :
+    (A.map codes).find? p = (A.find? (fun e => p (codes e))).map codes := by
+  induction A with
+  | nil => rfl
+  | cons a A ih => by_cases h : p (codes a) = true <;> simp [h, ih]
+
+open Gen.C12F in
+theorem gen_splitext_addext_eq (fn : String) (A : List String) (mc : Bool) :
+    ∃ a b c, splitext_addext (.str fn) (ofList (A.map V.str)) (.bool mc) = .ok (.tup3 (.str a) (.str b) (.str c)) ∧
+      (codes a, codes b, codes c) = splitextAddext (codes fn) (A.map codes) mc := by
+  obtain ⟨s', hl, hs⟩ := sae_loop mc fn A ⟨.str fn, ofList (A.map V.str), .bool mc, .bool false, .none, .none, tag mc,
+    .none, .none, .none⟩ rfl rfl rfl
+  rw [splitextAddext_split, find_codes]
+  cases mc <;>
+  · simp only [splitext_addext, stringifyPath, truthy_bool, bind_ok, pure_eq_ok, asList_ofList, tag_true, tag_false] at hl ⊢
+    simp only [hl, bind_ok]
+    cases hfind : A.find? (fun e => endsFn _ (codes fn) (codes e)) with
+    | none =>
+      rw [hfind] at hs
+      obtain ⟨hf, hb⟩ := hs
+      simp [hf, hb, strRfind, strStrip, V.sliceTo, V.sliceFrom]
+      obtain ⟨a, b, h1, h2⟩ := sae_tail_V fn ""
+      exact ⟨a, b, "", h1, by simp [h2, codes_empty]⟩
+    | some e =>
+      rw [hfind] at hs
+      obtain ⟨hf, ha, hb⟩ := hs
+      simp [hf, ha, hb, strRfind, strStrip, V.sliceTo, V.sliceFrom]
+      have hc := cut_codes fn e.toList.length
+      obtain ⟨a, b, h1, h2⟩ := sae_tail_V (PyS.sliceTo fn (-(e.toList.length : Int))) (PyS.sliceFrom fn (-(e.toList.length : Int)))
+      refine ⟨a, b, _, h1, ?_⟩
+      simp [codes_length, ← hc, h2]
 
 end Nb.C12.GenT
